@@ -864,26 +864,59 @@ fn one_case(ctx: &Ctx, stream: &str, idx: usize, id: String, hostile: bool) -> C
                 sim.case.fail(format!("after draining, {} bytes returned but the device wrote {} (bytes lost)", sim.returned, pos));
             }
         }
-        if hostile && !sim.dead {
+        if !sim.dead {
             // hostile epilogue (oracles only, nothing recorded for the model): the device reports a
             // completion whose id is not the outstanding receive request, then the caller keeps
             // polling.  The receive buffer must not be handed out a second time while it is still
             // shared (ledger: overlapping share), nothing may be unshared twice.
+            // bring the driver into the state "one receive request outstanding, nothing pending":
+            // a one-byte blocking read against a device that delivers two bytes, then single-byte
+            // pops (the pop of the last pending byte re-posts the buffer)
+            for _ in 0..2 {
+                {
+                    let mut d = dev.borrow_mut();
+                    d.mode = Mode::RxWait;
+                    d.spins = 0;
+                    d.idle_left = 0;
+                    d.op_idle = 0;
+                    d.op_fill = None;
+                    d.plan_fill = 2;
+                    d.plan_claim = 2;
+                    d.raise_isr = false;
+                }
+                let mut one = [0u8; 1];
+                let _ = guarded(|| Read::read(&mut con, &mut one));
+                dev.borrow_mut().mode = Mode::Idle;
+                let _ = guarded(|| while let Ok(Some(_)) = con.recv(true) {});
+            }
             let bogus = {
                 let mut d = dev.borrow_mut();
                 d.fetch_rx();
+
+
                 match d.rx.as_mut() {
                     Some(q) => {
                         let n = q.size.max(2);
-                        let id = q.inflight.first().map(|c| (c.head + 1) % n).unwrap_or(1 % n);
-                        q.push_used_raw(id as u32, 1).is_ok()
+                        match q.inflight.first().map(|c| (c.head + 1) % n) {
+                            Some(id) => q.push_used_raw(id as u32, 1).is_ok(),
+                            None => false,
+                        }
                     }
                     None => false,
                 }
             };
             if bogus {
-                for _ in 0..3 {
-                    let _ = guarded(|| con.recv(true));
+                // the caller keeps trying to read; the device stays silent.  A correct driver waits for
+                // its outstanding request for ever (the harness ends the busy-wait by a panic after
+                // 200000 spins, which is caught here and is not a failure)
+                for _ in 0..2 {
+                    {
+                        let mut d = dev.borrow_mut();
+                        d.mode = Mode::Idle;
+                        d.spins = 0;
+                    }
+                    let mut one = [0u8; 1];
+                    let _ = guarded(|| Read::read(&mut con, &mut one));
                 }
                 sim.case.tag("epilogue:bogus_rx_id");
             }
